@@ -9,7 +9,9 @@ package main
 //   K <row,row,…>                      GetMetas enumeration order (imposed through the verif hook)
 //   B <row,row,…|->                    non-lazy user post-processors in the order the boot phase creates them
 //   R <row> <name> <ty> <impl> <custom> <primary> <lazy> <qual|~> <meths|.>     one per registered component
-//   N <row> <utype> <cust> <q> <r> <ord> <early> <after> <flt> <cfg> <wired>    universe instances only
+//   N <row> <utype> <cust> <q> <r> <ord> <early> <after> <flt> <cfg> <wired> [<fetch|-> [<progQ|-> [<runAfter> [x]]]]   universe instances only
+//       (runAfter: 1 + the node whose Run must precede this runner's, 0 = none; x: the node is not handed to the start, its
+//        definition is registered by a factory post-processor of the harness — such lines are `#extra`, oracle-only)
 //   F <row> <slot> <kind> <target> <w|f> <tag>                                  injection points in scan order
 // Observation:
 //   st=<ok|err.<stage>|panic|hang> ev=<events> [fl=<row.slot:objs;…> pub=<row:obj,…>]      (fl/pub only when ok)
@@ -50,6 +52,10 @@ type gNode struct {
 	progQ                 string            // qualifier attached in code by a T25 processor (such scenarios are oracle-only)
 	cfg                   int               // 0 none, 1 literal, 2 absent key required, 3 absent key optional, 4 absent key with default
 	slots                 map[string]string // slot → 'w'|'f' + tag text
+	runAfter              int               // runner types: 1 + the node whose Run must have been invoked before this one's (0 = none); Run
+	                                        // reports an error otherwise. The prerequisite always sorts strictly before by the ordering contract.
+	extra                 bool              // not handed to the start: its (non-lazy) definition is registered by a factory post-processor of the
+	                                        // harness through GetDefinitionRegistry().RegisterMeta (such scenarios are oracle-only)
 }
 
 type gScen struct {
@@ -70,13 +76,42 @@ type gScen struct {
 	                  //     registered with ioc.Register, the start is ioc.Run with the usual options (ioc.Register's list is
 	                  //     never cleared: at most one such start per process, the last one); 4 = like 1, but in the earlier
 	                  //     start the custom names of the components were handed round (Naming() answers differently now)
+	                  // 5 = like 2, but the OTHER application registers its components under other names (every custom name with the
+	                  //     suffix "~v") and has no injection points: a name of this application is absent from that one and vice versa
 	reuse      []node // hist 1 / 4, set by the prelude: the objects to start again
 }
 
 // points declared with real struct tags (type 32): name → 'f'/'w' + tag text, in declaration order (after every Base slot)
 var staticSlotTags = map[string]string{"FQ": "fF2,qualifier=a,required=false", "FS": "fF1,returns=*,qualifier=b,required=false",
 	"T0": "w,required=false", // (type 33: the anonymous field `*T0`, Go field name "T0")
-	"T1": "weptarget"}        // (type 34: the anonymous field `*T1`, wired by name, required)
+	"T1": "weptarget",        // (type 34: the anonymous field `*T1`, wired by name, required)
+	"DA": "w", "DB": "w"}     // (type 37: the fields depA.Dep and depB.Dep — one Go field name, one tag text, two types; required)
+
+// where a statically tagged point lives when its label is not a selector of the holder (type 37: t.Dep is ambiguous)
+var staticSlotPath = map[string][]string{"DA": {"depA", "Dep"}, "DB": {"depB", "Dep"}}
+
+// staticField: the struct field / the value of a statically tagged point of a holder
+func staticFieldType(ht reflect.Type, label string) reflect.Type {
+	if path, ok := staticSlotPath[label]; ok {
+		for _, nm := range path {
+			sf, _ := ht.FieldByName(nm)
+			ht = sf.Type
+		}
+		return ht
+	}
+	sf, _ := ht.FieldByName(label)
+	return sf.Type
+}
+
+func staticFieldValue(hv reflect.Value, label string) reflect.Value {
+	if path, ok := staticSlotPath[label]; ok {
+		for _, nm := range path {
+			hv = hv.FieldByName(nm)
+		}
+		return hv
+	}
+	return hv.FieldByName(label)
+}
 
 func staticSlotsOf(ty int) []string {
 	switch ty {
@@ -86,6 +121,8 @@ func staticSlotsOf(ty int) []string {
 		return []string{"T0"}
 	case 34:
 		return []string{"T1"}
+	case 37:
+		return []string{"DA", "DB"}
 	}
 	return nil
 }
@@ -206,6 +243,17 @@ type gRun struct {
 func variantScen(sc *gScen) *gScen {
 	v := cloneScen(sc)
 	v.hist, v.reuse = 0, nil
+	if sc.hist == 5 {
+		// other names, no points, no lookups: it is started for what its start leaves behind in the process
+		for i := range v.nodes {
+			if v.nodes[i].cust != "" {
+				v.nodes[i].cust += "~v"
+			}
+			v.nodes[i].slots = map[string]string{}
+			v.nodes[i].flt &^= fltLookup
+		}
+		return v
+	}
 	var idx []int
 	for i, n := range v.nodes {
 		if n.ty < len(utInfos) && utInfos[n.ty].qual {
@@ -255,6 +303,7 @@ func runGraph(sc *gScen) *gRun {
 		cloneGen: map[any]int{}, freshEarly: sc.retry()}
 	res := &gRun{sc: sc, rowOf: map[string]int{}, fields: map[string][]string{}, pubs: map[int]string{}, slotInfo: map[string][3]string{}}
 	var comps []any
+	var extras []node
 	for i, gn := range sc.nodes {
 		n := universeCtors[gn.ty]()
 		if sc.reuse != nil {
@@ -284,11 +333,20 @@ func runGraph(sc *gScen) *gRun {
 		if w, ok := cfgPrefix[gn.cfg]; ok {
 			b.wSpec = w
 		}
+		b.RunAfter = gn.runAfter
 		res.nodesObj = append(res.nodesObj, n)
+		if gn.extra {
+			extras = append(extras, n)
+			continue
+		}
 		comps = append(comps, n)
 	}
+	handed := len(comps) // the universe components handed to the start (all of them, unless some are `extra`)
 	obs := &obsPP{env: env}
 	comps = append(comps, obs, newDynCompScanner(), newDynCfgScanner(), &reRegScanner{})
+	if len(extras) > 0 {
+		comps = append(comps, &extraDefs{extras: extras})
+	}
 	if sc.scanFail {
 		comps = append(comps, &failScanner{})
 	}
@@ -297,11 +355,11 @@ func runGraph(sc *gScen) *gRun {
 	}
 	// names known before the run: ours + the built-ins (from a dry run)
 	var names []string
-	for _, c := range comps[:len(sc.nodes)] {
-		names = append(names, framework_helper.GetComponentName(c))
+	for _, n := range res.nodesObj {
+		names = append(names, framework_helper.GetComponentName(n))
 	}
 	var others []string
-	for _, c := range comps[len(sc.nodes):] {
+	for _, c := range comps[handed:] {
 		others = append(others, framework_helper.GetComponentName(c))
 	}
 	others = append(others, builtinNames()...)
@@ -313,6 +371,17 @@ func runGraph(sc *gScen) *gRun {
 			return res
 		}
 		res.rowOf[n] = i
+	}
+	if sc.natural && sc.hist != 3 {
+		// no order is imposed: the REGISTRATION order (the order of the arguments of app.SetComponents) is permuted too — a
+		// function of the seed of this run; nothing about a start may depend on it
+		sh := hx.NewRng(sc.rankSeed ^ 0x9e3779b97f4a7c15)
+		pm := sh.Perm(len(comps))
+		shuffled := make([]any, len(comps))
+		for i, j := range pm {
+			shuffled[i] = comps[j]
+		}
+		comps = shuffled
 	}
 	// enumeration order
 	rng := hx.NewRng(sc.rankSeed)
@@ -411,7 +480,7 @@ func runGraph(sc *gScen) *gRun {
 		}
 	}
 	res.nested = append([]string{}, tr.nested...)
-	if res.status == "ok" && sc.hist == 2 {
+	if res.status == "ok" && (sc.hist == 2 || sc.hist == 5) {
 		// another application of the same process starts now, on fresh objects: nothing of it may reach this one
 		saveEnv, saveScans := curEnv, atomic.LoadInt64(&scanCalls)
 		runGraph(variantScen(sc))
@@ -477,6 +546,9 @@ func runGraph(sc *gScen) *gRun {
 	tyOf(reflect.TypeOf(&T4{}))
 	for _, n := range names {
 		obj, err := sr.GetSingleton(n)
+		if ri := res.rowOf[n]; err != nil && ri < len(sc.nodes) && sc.nodes[ri].extra {
+			obj, err = any(res.nodesObj[ri]), nil // registered as a definition only, by the harness's factory post-processor
+		}
 		if err != nil {
 			// not registered although it was handed to the start (or is a built-in): keep a placeholder row, and say so
 			res.rows = append(res.rows, gRow{name: n, ty: -1, meths: ".", ocls: "n"})
@@ -608,8 +680,7 @@ func runGraph(sc *gScen) *gRun {
 		if hasStaticSlots(gn.ty) {
 			ht := reflect.TypeOf(res.nodesObj[i]).Elem()
 			for _, sn := range staticSlotsOf(gn.ty) {
-				sf, _ := ht.FieldByName(sn)
-				kind, target := kindOf(sf.Type, tyOf)
+				kind, target := kindOf(staticFieldType(ht, sn), tyOf)
 				res.slotInfo[fmt.Sprintf("%d.%s", i, sn)] = [3]string{kind, target, staticSlotTags[sn]}
 			}
 		}
@@ -672,7 +743,7 @@ func runGraph(sc *gScen) *gRun {
 			if hasStaticSlots(sc.nodes[i].ty) {
 				hv := reflect.ValueOf(n).Elem()
 				for _, sn := range staticSlotsOf(sc.nodes[i].ty) {
-					res.fields[fmt.Sprintf("%d.%s", i, sn)] = readSlot(hv.FieldByName(sn), env)
+					res.fields[fmt.Sprintf("%d.%s", i, sn)] = readSlot(staticFieldValue(hv, sn), env)
 				}
 			}
 		}
@@ -780,10 +851,17 @@ func builtinNames() []string {
 // a failing runner was invoked → runners; the definition scan never started → config; the injected scan fault → factory;
 // otherwise the outermost creation that failed belongs to the boot phase (a user post-processor) → factory, else → refresh.
 func (r *gRun) stageOfFailure(tr *traceSCR, names []string) string {
+	ran := map[int]bool{}
 	for _, e := range r.events {
 		if e[0] == 'r' {
-			if ri, err := strconv.Atoi(e[1:]); err == nil && ri < len(r.sc.nodes) && r.sc.nodes[ri].flt&fltRun != 0 {
-				return "runners"
+			if ri, err := strconv.Atoi(e[1:]); err == nil && ri < len(r.sc.nodes) {
+				if r.sc.nodes[ri].flt&fltRun != 0 {
+					return "runners"
+				}
+				if ra := r.sc.nodes[ri].runAfter; ra != 0 && !ran[ra-1] {
+					return "runners" // a runner that refuses to run before its prerequisite was invoked first
+				}
+				ran[ri] = true
 			}
 		}
 	}
@@ -980,14 +1058,20 @@ func (r *gRun) scenarioLine() string {
 		}
 		rec := fmt.Sprintf("N %d %d %s %s %s %d %d %d %d %d %d", i, n.ty, hx.Hex(n.cust), hx.Hex(n.q), hx.Hex(n.r),
 			n.ord, n.early, n.after, n.flt, n.cfg, wired)
-		if n.fetch != "" || n.progQ != "" {
+		if n.fetch != "" || n.progQ != "" || n.runAfter != 0 || n.extra {
 			ft := "-"
 			if n.fetch != "" {
 				ft = hx.Hex(n.fetch)
 			}
 			rec += " " + ft
-			if n.progQ != "" {
-				rec += " " + hx.Hex(n.progQ)
+			if n.progQ != "" || n.runAfter != 0 || n.extra {
+				rec += " " + hx.Hex(n.progQ) // ("-" when empty)
+			}
+			if n.runAfter != 0 || n.extra {
+				rec += fmt.Sprintf(" %d", n.runAfter)
+			}
+			if n.extra {
+				rec += " x"
 			}
 		}
 		recs = append(recs, rec)
@@ -1153,7 +1237,8 @@ func (r *gRun) oracles() []string {
 					continue
 				}
 				t, ok := r.rowOf[tag[1:]]
-				if !ok || t == i || t >= len(r.sc.nodes) || len(r.sc.nodes[t].slots) != 0 || utInfos[r.sc.nodes[t].ty].pp || r.sc.nodes[t].fetch != "" {
+				if !ok || t == i || t >= len(r.sc.nodes) || len(r.sc.nodes[t].slots) != 0 || hasStaticSlots(r.sc.nodes[t].ty) || utInfos[r.sc.nodes[t].ty].pp || r.sc.nodes[t].fetch != "" {
+					// (a type with points declared by struct tags is no leaf: it can depend back)
 					continue
 				}
 				if pt, ok := pos[fmt.Sprintf("i%d", t)]; !ok || pt > pi {
@@ -1295,6 +1380,26 @@ func (r *gRun) oracles() []string {
 		}
 		last[id] = rank[k]
 	}
+	// C13 "after every eagerly created component has finished initialization": when the first runner is invoked, Init has run on
+	// every component whose type is declared without the LazyInit marker — however its definition reached the container
+	// (handed to the start, or registered by a factory post-processor)
+	for fi, e := range r.events {
+		if e[0] != 'r' {
+			continue
+		}
+		inited := map[string]bool{}
+		for _, x := range r.events[:fi] {
+			if x[0] == 'i' {
+				inited[x[1:]] = true
+			}
+		}
+		for i, n := range r.sc.nodes {
+			if n.ty < len(utInfos) && !utInfos[n.ty].lazy && !utInfos[n.ty].pp && !inited[strconv.Itoa(i)] {
+				add("c13-before-ready", "runner event %s although Init of node %d (universe type %d, declared WITHOUT the LazyInit marker) had not run: the container was not ready", e, i, n.ty)
+			}
+		}
+		break
+	}
 	// … and every component that completed creation during the start, with the observing processor active (created after
 	// it was registered: not the boot-phase ones), went through ALL six steps
 	if r.status == "ok" {
@@ -1333,6 +1438,8 @@ func (r *gRun) oracles() []string {
 		}
 	}
 	r.matchOracles(add)
+	r.lookupOracles(add)
+	r.lazyOracles(add)
 	// C13: a failing runner ends the start with an error and nothing is invoked after it
 	for i, e := range r.events {
 		if e[0] != 'r' {
@@ -1473,8 +1580,8 @@ func (r *gRun) oracles() []string {
 // whatever cycles it contains — must start (C02), independently of any model.
 // allOptional: at least one point, every point carries required=false, and nothing else can make the start fail
 func (r *gRun) allOptional() bool {
-	if r.sc.loaderFail || r.sc.scanFail || r.sc.hasType(34) {
-		return false // (type 34 has a REQUIRED point declared with a struct tag)
+	if r.sc.loaderFail || r.sc.scanFail || r.sc.hasType(34) || r.sc.hasType(37) {
+		return false // (types 34, 37 have REQUIRED points declared with struct tags)
 	}
 	points := 0
 	for _, n := range r.sc.nodes {
@@ -1492,8 +1599,8 @@ func (r *gRun) allOptional() bool {
 }
 
 func (r *gRun) plainlyResolvable() bool {
-	if r.sc.loaderFail || r.sc.scanFail || r.sc.progQualified() || r.sc.hasType(34) {
-		return false // (type 34 has a required by-name point of its own, declared with a struct tag)
+	if r.sc.loaderFail || r.sc.scanFail || r.sc.progQualified() || r.sc.hasType(34) || r.sc.hasType(37) {
+		return false // (types 34, 37 have required points of their own, declared with struct tags)
 	}
 	names := map[string]int{}
 	for i := range r.sc.nodes {
@@ -1632,6 +1739,12 @@ func parseGraphScenario(line string) (*gScen, error) {
 			if len(f) > 13 {
 				n.progQ, _ = hx.UnHex(f[13])
 			}
+			if len(f) > 14 {
+				n.runAfter, _ = strconv.Atoi(f[14])
+			}
+			if len(f) > 15 {
+				n.extra = f[15] == "x"
+			}
 			sc.nodes = append(sc.nodes, n)
 		case "F":
 			if len(f) < 7 {
@@ -1653,6 +1766,7 @@ func graphReplay(scn string, w *hx.Writer) {
 	scn = strings.TrimPrefix(scn, "#retry ")
 	scn = strings.TrimPrefix(scn, "#progq ")
 	scn = strings.TrimPrefix(scn, "#ioc ")
+	scn = strings.TrimPrefix(scn, "#extra ")
 	sc, err := parseGraphScenario(scn)
 	if err != nil {
 		return
@@ -1769,6 +1883,8 @@ func emitGraph(sc *gScen, tags []string, w *hx.Writer) *gRun {
 	scn := r.scenarioLine()
 	if sc.reentrant() {
 		scn = "#reentrant " + scn // callbacks that re-enter the factory are outside the machine model: oracle-only
+	} else if sc.hasExtra() {
+		scn = "#extra " + scn // a definition registered by a factory post-processor is outside the model's population: oracle-only
 	} else if sc.hist == 3 {
 		scn = "#ioc " + scn // one start per process through ioc.Register (never cleared): not shrunk, judged by the oracles
 	}
@@ -1830,6 +1946,15 @@ func (sc *gScen) unqualify() {
 			}
 		}
 	}
+}
+
+func (sc *gScen) hasExtra() bool {
+	for _, n := range sc.nodes {
+		if n.extra {
+			return true
+		}
+	}
+	return false
 }
 
 func (sc *gScen) hasType(ty int) bool {
